@@ -220,7 +220,10 @@ class _VariationalStrategy(Module, ABC):
             train_labels_offset = (inducing_exact_model.prediction_strategy.train_labels - train_mean).unsqueeze(-1)
             mean_cache = updated_lik_train_train_covar.solve(train_labels_offset).squeeze(-1)
             mean_cache = _add_cache_hook(mean_cache, inducing_exact_model.prediction_strategy)
-            add_to_cache(pred_strat, "mean_cache", mean_cache, "ignore")
+            # the reader is keyed by the NaN policy; the pseudo targets are never missing, so this is the cache of every policy
+            # (recomputing it from the likelihood would lose the pseudo-observation covariance)
+            for nan_policy in ("ignore", "mask", "fill"):
+                add_to_cache(pred_strat, "mean_cache", mean_cache, nan_policy)
             # TODO: check to see if we need to do the covar_cache?
 
             inducing_exact_model.prediction_strategy = pred_strat
@@ -321,7 +324,9 @@ class _VariationalStrategy(Module, ABC):
         fantasy_lik_train_root_inv = fant_pred_strat.lik_train_train_covar.root_inv_decomposition()
         mean_cache = fantasy_lik_train_root_inv.matmul(train_labels_offset).squeeze(-1)
         mean_cache = _add_cache_hook(mean_cache, fant_pred_strat)
-        add_to_cache(fant_pred_strat, "mean_cache", mean_cache, "ignore")
+        # keyed by the NaN policy of the reader; the targets are used as they are under every policy
+        for nan_policy in ("ignore", "mask", "fill"):
+            add_to_cache(fant_pred_strat, "mean_cache", mean_cache, nan_policy)
         # TODO: should we update the covar_cache?
 
         fantasy_model.prediction_strategy = fant_pred_strat
